@@ -8,7 +8,7 @@ if not os.path.exists(wt):
 for l in open('/verif/properties.jsonl'):
     p=json.loads(l)
     if p['id']==pid: break
-t=open('/tmp/mutants/PROMPT.tmpl').read()
+t=open(os.environ.get('PROMPT_TMPL','/tmp/mutants/PROMPT.tmpl')).read()
 for k,v in (('@WT@',wt),('@ID@',pid+tag),('@TITLE@',p['title']),('@STATEMENT@',p['statement']),('@QUANT@',p['quantifier']['text']),('@FILES@',', '.join(p['anchors']['files'])),('@N@',n)):
     t=t.replace(k,v)
 print(t)
